@@ -15,9 +15,10 @@ CONSTANTS
     CloseReleasesBlob = TRUE
     CloseFiles = TRUE
     StampOnlyOnSuccess = TRUE
+    BlobReleasedOnCloseError = TRUE
 SPECIFICATION TraceSpec
 CONSTRAINT HighWater
-INVARIANTS HeldLayerServes AllReleasedAndEvictedFreesEverything ClosedMeansGone NoOpenFilesAfterClose FailedResolveLeaksNothing
+INVARIANTS HeldLayerServes AllReleasedAndEvictedFreesEverything UnusedBlobIsGone ClosedMeansGone NoOpenFilesAfterClose FailedResolveLeaksNothing
 PROPERTIES ReadWorks ReturnedIsCached NoDuplicateCreation ResolveAgainWorks CheckNotFooled
 POSTCONDITION TraceAccepted
 CHECK_DEADLOCK FALSE
